@@ -25,6 +25,11 @@ if git -C /repo apply --check $OUT/patch.diff; then
   (cd /repo && go build ./... 2>&1 | tail -3)
   (cd /verif && timeout 1500 ./check $P 2>&1 | cut -c1-400 | tee /verif/seeded/$N/check_quick.txt)
   git -C /repo checkout -q -- .
+  R=$(grep -o 'replay=[^ ]*' /verif/seeded/$N/check_quick.txt | head -1 | cut -d= -f2)
+  [ -n "$R" ] && python3 -c "
+import json,sys
+d=json.load(open('/verif/'+sys.argv[1]))
+print('   replay:', {k:str(d.get(k))[:160] for k in ('what','engine','kind','verdict') if d.get(k)})" "$R"
 else
   echo "PATCH DOES NOT APPLY TO /repo HEAD"
 fi
